@@ -3,7 +3,7 @@ import collections
 from .. import bb, chain as K, gen_chain as GC, gen_history as GH
 
 NAMESPACE = "Rbp.Props.C08"
-REQUIRED = ["balances_spec", "balances_eq_unspent_aggregate", "exit0_balances_is_aggregate_of_delivered", "balance_is_sum_of_chunk_sums", "bal_append"]
+REQUIRED = ["balances_spec", "balances_eq_unspent_aggregate", "exit0_balances_is_aggregate_of_delivered", "balance_is_sum_of_chunk_sums", "bal_append", "aggregation_conserves_value"]
 LEAN_FILES = ["Rbp/Model/Balances.lean", "Rbp/Model/Callbacks.lean", "Rbp/Proofs/Utxo.lean"]
 RULE = ("black-box `balances` on the spend histories of C07 (shared address pool: many outputs per address, P2PK and P2PKH of one key, addresses fully spent and re-funded, duplicate coinbases, ranges; 20 000 - 70 000 unspent outputs on three addresses; look-alike addresses sharing a long Base58 prefix) vs the whole-program Lean model; "
         "in addition the real `balances` output is compared with the per-address aggregation of the real `unspentcsvdump` output of the same data directory and range (needs no model). Row sets compared after sorting. "
